@@ -42,7 +42,7 @@ func checkC14(p *Prog, r *Report) {
 	for _, f := range roots {
 		n += checkSpliceLoops(p, r, pc, f)
 	}
-	r.floor("splices in schema edits", n, 1)
+	r.count("splices in schema edits", n)
 
 	// R12
 	h := newHeap(p)
